@@ -78,7 +78,8 @@ Record names_inv (t : thread) : Prop := mkNI {
   ni_dels : Forall (fun n => is_count n = true) (t_dels t);
   ni_ready : Forall rname (t_ready t);
   ni_up : Forall rname (t_up t);
-  ni_file : in_upl (t_pc t) = true -> rname (t_file t)
+  ni_file : in_upl (t_pc t) = true -> rname (t_file t);
+  ni_nonempty : in_rep (t_pc t) = true -> t_files t <> []
 }.
 
 Lemma names_inv_new k c : names_inv (new_thread k c).
@@ -153,7 +154,7 @@ Proof. induction 1; simpl; constructor; auto. Qed.
 
 Lemma names_inv_step f a t e t' : decide_all f a t = (e, t') -> names_inv t -> names_inv t'.
 Proof.
-  intros H [H1 H2 H3 H4 H5 H6 H7 H8 H9].
+  intros H [H1 H2 H3 H4 H5 H6 H7 H8 H9 H10].
   destruct a; dinv H; adv; pcrw; simpl in *.
   all: try (destruct (take_week_ok _ _ _ _ H3 ltac:(eassumption)) as (Tw & Tf & Tr)).
   all: try (match goal with Hn : next_upload _ _ = Some _ |- _ =>
@@ -173,7 +174,8 @@ Proof.
   all: try (apply Forall_app; split; auto; constructor; auto; inversion H1; subst; auto; fail).
   all: try (destruct (t_upok t); auto; apply Forall_app; split; auto; constructor; auto;
             apply rname_ready; apply H5; reflexivity).
-  all: destruct (next_upload_ok _ _ _ _ H7 H); auto.
+  all: try (destruct (next_upload_ok _ _ _ _ H7 H); auto; fail).
+  intros ->. discriminate.
 Qed.
 
 (* every thread of a reachable state *)
